@@ -8,7 +8,7 @@ import (
 
 func init() {
 	register(&Property{ID: "C07", Run: runC07,
-		Explain: "Admission, pairing and existence rules of the mesh, decided for every router state: (R07.1) every own-initiative graft candidate comes from getPeers with a filter that returns true only for non-direct, non-backed-off peers with score >= 0 (opportunistic: > median, after the negative-score prune), the backoff map consulted by a filter is loaded after the last prune of the same iteration, getPeers keeps only connected mesh-capable peers accepted by the filter, and every key inserted into a mesh map is such a candidate; Join's fanout promotion drops members with negative score or backoff; (R07.2) handleGraft inserts only after: topic joined, not direct, not (backoff present and unexpired), score >= 0, not (mesh >= Dhi and not outbound), peerFilter; (R07.3) graftPeer/prunePeer closures pair the mesh write with the tograft/toprune append (and backoff), sendGraftPrune is on every heartbeat path, Join GRAFTs every member of the final mesh map, Leave PRUNEs every former member; (R07.4) mesh keys are created only in Join and deleted only in Leave, Join removes the topic's fanout/lastpub, fanout entries are created only by getFanoutPeersForPublishing which is consulted only on a failed mesh lookup; (R07.5) handleGraft admits only connected peers (known finding F8 today), OnClosedOutboundStream removes the peer from every mesh and fanout map; the heartbeat's negative-score loop prunes every negatively scored member. NOT decided: the quantitative post-conditions (grown to D, cut back to D keeping Dscore best / Dout outbound) — they depend on sorting run-time scores and random selection.",
+		Explain: "Admission, pairing and existence rules of the mesh, decided for every router state: (R07.1) every own-initiative graft candidate comes from getPeers with a filter that returns true only for non-direct, non-backed-off peers with score >= 0 (opportunistic: > median, after the negative-score prune), the backoff map consulted by a filter is loaded after the last prune of the same iteration, getPeers keeps only connected mesh-capable peers accepted by the filter, and every key inserted into a mesh map is such a candidate; Join's fanout promotion drops members with negative score or backoff; (R07.2) handleGraft inserts only after: topic joined, not direct, not (backoff present and unexpired), score >= 0, not (mesh >= Dhi and not outbound), peerFilter; (R07.3) graftPeer/prunePeer closures pair the mesh write with the tograft/toprune append (and backoff), sendGraftPrune is on every heartbeat path, Join GRAFTs every member of the final mesh map, Leave PRUNEs every former member; (R07.4) mesh keys are created only in Join and deleted only in Leave, Join removes the topic's fanout/lastpub, fanout entries are created only by getFanoutPeersForPublishing which is consulted only on a failed mesh lookup; (R07.5) handleGraft admits only connected peers (known finding F8 today), OnClosedOutboundStream removes the peer from every mesh and fanout map; the heartbeat's negative-score loop prunes every negatively scored member; (R07.6) every integer division/modulo of the heartbeat by a parameter is safe for every accepted parameter set (validation rejects a zero divisor on every accepting path, including the bootstrapper early return). NOT decided: the quantitative post-conditions (grown to D, cut back to D keeping Dscore best / Dout outbound) — they depend on sorting run-time scores and random selection.",
 		Assume:  []string{"gs.peers holds exactly the peers with an outbound stream (C13)", "shufflePeers/sort only permute"},
 		Mutants: []Mutant{
 			{Name: "join-filter-no-backoff", File: "gossipsub.go", Old: "\t\t\treturn !direct && !doBackOff && gs.score.Score(p) >= 0\n", New: "\t\t\treturn !direct && (!doBackOff || len(backoff) > 16) && gs.score.Score(p) >= 0\n", Expect: "R07.1"},
@@ -23,6 +23,7 @@ func init() {
 			{Name: "leave-no-prune-when-px-off", File: "gossipsub.go", Old: "\t\tgs.tracer.Prune(p, topic)\n\t\tgs.sendPrune(p, topic, true)\n", New: "\t\tgs.tracer.Prune(p, topic)\n\t\tif gs.doPX {\n\t\t\tgs.sendPrune(p, topic, true)\n\t\t}\n", Expect: "R07.3"},
 			{Name: "join-keeps-fanout", File: "gossipsub.go", Old: "\t\tgs.mesh[topic] = gmap\n\t\tdelete(gs.fanout, topic)\n\t\tdelete(gs.lastpub, topic)\n", New: "\t\tgs.mesh[topic] = gmap\n\t\tdelete(gs.lastpub, topic)\n", Expect: "R07.4"},
 			{Name: "closed-stream-keeps-fanout", File: "gossipsub.go", Old: "\tfor _, peers := range gs.fanout {\n\t\tdelete(peers, p)\n\t}\n\tdelete(gs.gossip, p)", New: "\tdelete(gs.gossip, p)", Expect: "R07.5"},
+			{Name: "validate-allows-zero-ticks", File: "gossipsub.go", Old: "\tif params.OpportunisticGraftTicks == 0 || params.DirectConnectTicks == 0 {", New: "\tif params.DirectConnectTicks == 0 {", Expect: "R07.6"},
 			{Name: "negative-loop-break", File: "gossipsub.go", Old: "\t\t\t\tprunePeer(p)\n\t\t\t\tnoPX[p] = true\n", New: "\t\t\t\tprunePeer(p)\n\t\t\t\tnoPX[p] = true\n\t\t\t\tif len(peers) <= gs.params.Dlo {\n\t\t\t\t\tbreak\n\t\t\t\t}\n", Expect: "G10"},
 		}})
 	register(&Property{ID: "C08", Run: runC08,
@@ -621,6 +622,42 @@ func runC07(c *RuleCtx) {
 			}
 		}
 	}
+	// R07.6 accepted-parameter safety of the heartbeat: integer divisions/modulos by a parameter
+	{
+		n := 0
+		v := p.Fn("(*GossipSubParams).validate")
+		for _, d := range p.IntDivisions() {
+			if d.Fn.File != "gossipsub.go" {
+				continue
+			}
+			dv := p.R(d.Fn).Val(d.Expr.Y)
+			if dv.Kind != "field" || !strings.HasPrefix(dv.Name, "GossipSubParams.") {
+				continue
+			}
+			n++
+			pos := AtomCmp("divisor > 0", func(x *V) bool { return x.Equal(dv) }, ">", isZero)
+			ok, why := p.DomAny(d.Fn, d.Expr, AtomWant{pos, true})
+			if !ok && v != nil {
+				zero := AtomCmp(shortFn(dv.Name)+" == 0", isFieldOf(dv.Name), "==", isZero)
+				okAll, cnt := true, 0
+				returnsIn(v, func(r *ast.ReturnStmt) {
+					if len(r.Results) == 1 && isNilV(p.R(v).Val(r.Results[0])) {
+						cnt++
+						if okr, _ := p.DomAny(v, r, AtomWant{zero, false}); !okr {
+							okAll = false
+						}
+					}
+				})
+				if okAll && cnt > 0 {
+					ok, why = true, "GossipSubParams.validate rejects "+shortFn(dv.Name)+" == 0 on every accepting path (including the bootstrapper early return)"
+				}
+			}
+			c.Check(ok, "R07.6", d.Fn.Root().Name, "division by parameter "+shortFn(dv.Name)+" cannot be by zero", d.Expr, why, "the heartbeat divides by "+dv.String()+", which an accepted parameter set can leave at zero: the event loop panics with integer divide by zero")
+		}
+		if n < 2 {
+			c.Undecided("R07.6", "heartbeat divisors", "inventory", nil, "fewer parameter divisors than known")
+		}
+	}
 	// negative-score prune (first clause of C07) — shares G10 with C09
 	sub := &RuleCtx{P: c.P, Prop: c.Prop, Min: map[string]int{}}
 	runC09(sub)
@@ -634,6 +671,7 @@ func runC07(c *RuleCtx) {
 	c.Min["R07.3"] = 14
 	c.Min["R07.4"] = 8
 	c.Min["R07.5"] = 5
+	c.Min["R07.6"] = 2
 	c.Min["G10"] = 4
 }
 
